@@ -166,12 +166,12 @@ class Gen:
                 a = r.choice(['Copy', 'Link', 'Move', 'Tarball', 'Tarball'])
             client_side = a in ('Transfer', 'Tarball')
             # source
-            pool = [f for f in files if (f[0] == 'client') == client_side or r.random() < 0.15]
+            pool = [f for f in files if (f[0] == 'client') == client_side or r.random() < 0.04]
             z = r.random()
-            if z < 0.10 or not pool:
+            if z < 0.05 or not pool:
                 src = self.loc('client' if client_side else 'pilot', 'nope%d.dat' % r.randint(1, 3), uid,
                                'client' if client_side else 'task')
-            elif z < 0.13:
+            elif z < 0.065:
                 src = r.choice(['client://host/a.dat', 'pilot://h/sh.dat', 'task://x/y'])
             elif z < 0.2 and staged and not client_side:
                 src = self.loc('task', r.choice(staged), uid, 'task')
@@ -188,9 +188,9 @@ class Gen:
                     del d['action']
                 if r.random() < 0.15 and a != 'Link':
                     del d['target']
-                if r.random() < 0.02:
+                if r.random() < 0.008:
                     d['bogus'] = 1
-                if r.random() < 0.02:
+                if r.random() < 0.008:
                     d['source'] = r.choice([None, ''])
                 ins.append(d)
             if tgt and '://' not in tgt and not tgt.startswith('/') and not tgt.endswith('/'):
@@ -201,11 +201,11 @@ class Gen:
         for _ in range(r.choice([0, 1, 1, 2, 3])):
             a = 'Transfer' if r.random() < 0.55 else r.choice(['Copy', 'Link', 'Move'])
             z = r.random()
-            if z < 0.12 or not ex:
+            if z < 0.06 or not ex:
                 src = self.loc('task', 'gone%d.dat' % r.randint(1, 2), uid, 'task')
-            elif z < 0.15:
+            elif z < 0.075:
                 src = 'task://host/o1.dat'
-            elif z < 0.22:
+            elif z < 0.15:
                 f = r.choice([f for f in files if f[0] != 'client'] or [['task', ex[0][0]]])
                 src = self.loc(f[0], f[1], uid, 'task')
             else:
@@ -228,7 +228,7 @@ class Gen:
     def short(self, src, tgt):
         r = self.r
         q = r.random()
-        if q < 0.03:
+        if q < 0.012:
             return '%s > %s > z.dat' % (src, tgt)
         if tgt == '' and r.random() < 0.7:
             return src
@@ -276,7 +276,7 @@ class C11(Prop):
 
     def cases(self, rng, tier):
         g = Gen(rng)
-        n = 260 if tier == 'quick' else 5000
+        n = 400 if tier == 'quick' else 6000
         for _ in range(n):
             yield g.case()
         if tier == 'thorough':
